@@ -203,7 +203,8 @@ def variant_jobs(ctx, tag, impmem, start, shared, opts=(), prefix="G", only=None
     wasm_bytes = m.encode()
     d, r = ctx.translate(wasm_bytes, modname, opts)
     if d is None:
-        raise Undecided("w2c2 rejected the instantiation probe module (%s %s)" % (tag, " ".join(opts)))
+        from ..core import rejected_job
+        return [rejected_job("%s.%s.translate" % (prefix, tag), modname, r, wasm_bytes.hex())]
     text = HARNESS.replace("MODNAME", modname).replace("F32BITSu", "0x%08Xu" % F32BITS).replace("F64BITSull", "0x%016Xull" % F64BITS)
     blob = os.path.join(d, "datasegments")
     if os.path.exists(blob):
